@@ -3,3 +3,4 @@ CHECK_DEADLOCK FALSE
 INVARIANT ModelSyncedSurvive
 INVARIANT RecSynced
 INVARIANT RecNothingElse
+INVARIANT RecFollow
